@@ -1,6 +1,8 @@
 #!/bin/sh
 # soak: every check with many seeds on the tree as it is; prints only failures.  usage: tools/soak.sh <first> <last> [tier]
 cd "$(dirname "$0")/.." || exit 2
+# when started by `vp run --with-repo`, use the snapshot of /repo so that edits to /repo meanwhile do not disturb the soak
+[ -n "$VP_RUN_REPO" ] && export BUBUS_REPO="$VP_RUN_REPO"
 (cd lean && lake build >/dev/null 2>&1)
 first=${1:-100}; last=${2:-110}; tier=${3:-quick}
 for s in $(seq $first $last); do
